@@ -167,6 +167,7 @@ func (c *FileCache[MetadataT]) Get(key CacheKey) (*Entry[MetadataT], error) {
 		Data:     dataFile,
 		Metadata: entryMeta,
 		Stale:    stale,
+		Expires:  entryMeta.Expires,
 	}, nil
 }
 
@@ -252,6 +253,7 @@ func (c *FileCache[MetadataT]) Cache(key CacheKey, data io.Reader, expires time.
 	return &Entry[MetadataT]{
 		Data:     file,
 		Metadata: meta,
+		Expires:  expires,
 	}, nil
 }
 
